@@ -167,6 +167,10 @@ struct Arr {
         } else if (c.construct == "convert") {
             covfie::field<SB> s(pack(e));
             fo.emplace(s);
+        } else if (c.construct == "convert_rvalue") {
+            // conversion from a temporary / moved-from-here row-major field (a function result, std::move)
+            covfie::field<SB> s(pack(e));
+            fo.emplace(std::move(s));
         } else {
             // documented storage length of curve layouts: ipow(round_pow2(max extent), N)
             uint64_t len = cells;
@@ -303,8 +307,8 @@ struct Arr {
         }
         if (c.construct == "pack") {
             label("constructed from a parameter pack with documented storage length");
-        } else if (c.construct == "convert") {
-            label("constructed by conversion from a row-major field");
+        } else if (c.construct == "convert" || c.construct == "convert_rvalue") {
+            label(c.construct == "convert" ? "constructed by conversion from a row-major field" : "constructed by conversion from an rvalue row-major field");
         }
         if (!cube_pow2) {
             label("not a power-of-two cube");
@@ -321,12 +325,12 @@ struct Arr {
         }
         static const uint64_t Bq[] = {0, 64, 24, 9, 5}, Bt[] = {0, 256, 64, 16, 8};
         const uint64_t Bd = tier(Bq[N], Bt[N]);
-        const std::vector<std::string> ctors = L == Lay::strided ? std::vector<std::string>{"extents", "pack"} : std::vector<std::string>{"convert", "pack"};
+        const std::vector<std::string> ctors = L == Lay::strided ? std::vector<std::string>{"extents", "pack"} : std::vector<std::string>{"convert", "pack", "convert_rvalue"};
         std::vector<uint64_t> e(N, 1);
         uint64_t n = 0;
         while (true) {
             // two fixed writes so that the exhaustive part also exercises overwrite + neighbours
-            Case c{e, ctors[n % 2], {}, unsigned((n / 2) % 4)};
+            Case c{e, ctors[n % ctors.size()], {}, unsigned((n / 2) % 4)};
             std::vector<uint64_t> last(N);
             for (size_t k = 0; k < N; ++k) {
                 last[k] = e[k] - 1;
